@@ -12,7 +12,10 @@ ExtCases == UNION {{[kind |-> k, depth |-> d, inject |-> SetToSeq(i), caller |->
 VarCases == UNION {{[kind |-> k, depth |-> d, inject |-> SetToSeq(i), caller |-> c, env |-> e, pathclass |-> pc, dirs |-> dm] :
                k \in {"ptemplate", "ftemplate"}, i \in Injects(d), c \in BOOLEAN,
                e \in (IF Quick THEN {"unset", "1", "yes"} ELSE EnvValues), pc \in PathClasses, dm \in DirModes} : d \in 0..2}
-ASSUME LET S == SetToSeq(ExtCases \cup VarCases) IN ndJsonSerialize(IOEnv.VERIF_OUT, [i \in 1..Len(S) |-> [id |-> i] @@ S[i]])
+\* capabilities reached for from inside the template text (no opt-in key is written anywhere)
+JCases == {[kind |-> k, depth |-> 0, inject |-> <<>>, caller |-> c, env |-> e, pathclass |-> "outside", dirs |-> dm] :
+               k \in {"jcmd", "jvars", "jfile"}, c \in BOOLEAN, e \in {"unset", "1"}, dm \in {"none", "source"}}
+ASSUME LET S == SetToSeq(ExtCases \cup VarCases \cup JCases) IN ndJsonSerialize(IOEnv.VERIF_OUT, [i \in 1..Len(S) |-> [id |-> i] @@ S[i]])
 Init == x = 0
 Next == UNCHANGED x
 =============================================================================
